@@ -229,13 +229,13 @@ Definition bits_of (i : inp) : list Z :=
           i_haslevel i; i_permboard i; i_namedbm i; i_hidden i; i_postmask i; i_bover18 i; i_level0 i; i_levelbm i].
 
 (* op 1: [ulevel; over18; inbm; friend; namedbm] [battr; blevel]  ->
-     status, perm_stat, group_op, may_read (spec), may_list (spec),
+     status, perm_stat, group_op,
      six article entry points (1 data / 0 not permitted), four listings + summary (code, attr) *)
 Definition run_row (ulevel : Z) (o18 inbm fr nbm : bool) (battr blevel : Z) : list Z :=
   let i := abs ulevel o18 inbm fr nbm battr blevel in
   let u := mk_user ulevel o18 in
   let b := mk_board 10 true battr blevel inbm fr nbm true in
-  [ST_OK; perm_stat_bits ulevel o18 inbm fr battr blevel; zb (group_op_bits ulevel nbm); zb (may_read i); zb (may_list i);
+  [ST_OK; perm_stat_bits ulevel o18 inbm fr battr blevel; zb (group_op_bits ulevel nbm);
    code_valid (ep_is_board_valid_user i);
    code_outcome (ep_load_general_articles i 2 [1; 2]);
    code_outcome (ep_load_bottom_articles i 1 [1]);
@@ -246,11 +246,38 @@ Definition run_row (ulevel : Z) (o18 inbm fr nbm : bool) (battr blevel : Z) : li
   ++ code_listing (load_autocomplete_boards u [b])
   ++ code_listing (load_boards_by_bids u [b])
   ++ code_listing (load_hot_boards u [b])
+  ++ code_listing [load_board_summary u b]
+  (* the bbs wrappers: same guards after loading the caller by name *)
+  ++ [code_valid (ep_is_board_valid_user i);
+      code_outcome (ep_load_general_articles i 2 [1; 2]);
+      code_outcome (ep_load_bottom_articles i 1 [1]);
+      code_outcome (ep_read_post i 77 196)]
   ++ code_listing [load_board_summary u b].
+
+(* op 3: the entry points take the board number and the board name separately; permission is evaluated on the
+   board with that number, the files read are those of the board with that name *)
+Definition ep_read_post_pair {A} (i_of_bid : inp) (fn0 : Z) (content_of_named_board : A) : outcome A :=
+  ep_read_post i_of_bid fn0 content_of_named_board.
+Definition run_pair (ulevel : Z) (o18 inbm fr nbm : bool) (battr blevel : Z) : list Z :=
+  let i_name := abs ulevel o18 inbm fr nbm battr blevel in
+  let i_bid := abs ulevel o18 false false false BRD_POSTMASK 0 in      (* fixture board 1 (SYSOP): postmask, level 0 *)
+  [ST_OK; code_valid (ep_is_board_valid_user i_name); code_outcome (ep_read_post_pair i_bid 77 196); code_outcome (ep_read_post_pair i_bid 77 196)].
+
+(* op 4: LoadGeneralArticlesSameCreateTime takes no caller at all *)
+Definition ep_load_same_create_time {A} (total : Z) (recs : list A) : outcome (list A) :=
+  if total =? 0 then Data [] else Data recs.
+Definition run_helper (ulevel : Z) (o18 inbm fr nbm : bool) (battr blevel : Z) : list Z :=
+  let i := abs ulevel o18 inbm fr nbm battr blevel in
+  [ST_OK; code_valid (ep_is_board_valid_user i); code_outcome (ep_load_same_create_time 2 [1; 2])].
 
 Definition run_case (args : list (list Z)) : list Z :=
   match args with
   | [[1]; [ulevel; o18; inbm; fr; nbm]; [battr; blevel]] => run_row ulevel (bz o18) (bz inbm) (bz fr) (bz nbm) battr blevel
-  | [[2]; [ulevel; o18; inbm; fr; nbm]; [battr; blevel]] => ST_OK :: bits_of (abs ulevel (bz o18) (bz inbm) (bz fr) (bz nbm) battr blevel)
+  | [[3]; [ulevel; o18; inbm; fr; nbm]; [battr; blevel]] => run_pair ulevel (bz o18) (bz inbm) (bz fr) (bz nbm) battr blevel
+  | [[4]; [ulevel; o18; inbm; fr; nbm]; [battr; blevel]] => run_helper ulevel (bz o18) (bz inbm) (bz fr) (bz nbm) battr blevel
+  (* op 2: the abstract row of the numbers, then the specification's verdicts may_read, may_list *)
+  | [[2]; [ulevel; o18; inbm; fr; nbm]; [battr; blevel]] =>
+      let i := abs ulevel (bz o18) (bz inbm) (bz fr) (bz nbm) battr blevel in
+      ST_OK :: bits_of i ++ [zb (may_read i); zb (may_list i)]
   | _ => [ST_BADCASE]
   end.
